@@ -556,6 +556,9 @@ func (fx *FuncCtx) run(st *State, onReturn func(st *State, results []Value)) []*
 				default:
 					caller.vals[call] = TupleVal(res)
 				}
+				if c, ok := call.(*ssa.Call); ok {
+					fx.afterCall(st, c)
+				}
 			}
 			continue
 		case *ssa.Panic:
